@@ -21,7 +21,7 @@ RULE = ('corpus (defect witnesses, doc examples, slow-convergence root example),
         '0,1,2,3,10,2^32,MAX, exponents 0,1,2,63,64,65,bits+-1,huge; log with value = base^k-1/base^k/base^k+1, half-way values '
         '(estimate near x.5), base >= value, base = 2^k, bases 2,3,10,2^32,MAX, zero/one operands; root with value = r^k-1/r^k/r^k+1, '
         'MAX, degree in 1..bits+2, degree 0, degree >= bits, huge degree; approx_pow2 on all integer exponents -3..bits+3 and on fractional exponents at the thresholds / rounding boundaries '
-        '(integer post-processing model, float pre-processing recomputed in the harness), approx_log2 bracket checks; '
+        '(integer post-processing model, float pre-processing recomputed in the harness), approx_log2 bracket checks; the L1 operations of the loop bodies (overflowing_mul, *, +, /, saturating_shl(1), checked_add(1), bit_len) against their value-level specs; '
         'all cases shuffled; non-trivial = width>0 and not all operands zero; distinct by case hash')
 TRUSTED = ['libm (log2, exp2) and the host FPU: NOT modelled; the float-derived first guess of log/root is a parameter of the model, '
            'read back from the implementation through verif_hooks::tap and checked against the theorems\' hypothesis on every case',
@@ -303,18 +303,48 @@ def apow2_cases(rng, tier):
             yield 'apow2 %d %x' % (bits, f64bits(e))
 
 
+def l1_cases(rng, tier):
+    """the Uint operations the loop bodies use, straight against their value-level specs"""
+    n = 12000 if tier == 'quick' else 300000
+    for _ in range(n):
+        bits = rng.choice(GRID_ALL)
+        m = 1 << bits
+        c = rng.randrange(7)
+        if c <= 1:
+            a, b = pair(rng, bits)
+            if rng.random() < 0.4 and bits > 1:      # product straddling 2^bits
+                a = max(1, value(rng, bits))
+                b = (m // a + rng.choice([-1, 0, 1])) % m
+            yield '%s %d %x %x' % (rng.choice(['l1mul', 'l1mul', 'l1wmul']), bits, a, b)
+        elif c == 2:
+            a, b = pair(rng, bits)
+            yield 'l1wadd %d %x %x' % (bits, a, b)
+        elif c == 3:
+            a, b = pair(rng, bits)
+            if b:
+                yield 'l1div %d %x %x' % (bits, a, b)
+        else:
+            x = value(rng, bits)
+            if rng.random() < 0.3 and bits:
+                x = rng.choice([m >> 1, (m >> 1) - 1, (m >> 1) + 1, m - 1]) % m
+            yield '%s %d %x' % (rng.choice(['l1sshl1', 'l1cadd1', 'l1bitlen']), bits, x)
+
+
 def gen(rng, tier):
     """all cases, shuffled (deterministically): non-terminating cases of a broken `root`/`log` cost a
     time-out each, so they must be spread evenly over the parallel chunks"""
     out = list(exhaustive(tier))
     out += list(approx_cases(rng, tier))
     out += list(apow2_cases(rng, tier))
-    n = 60000 if tier == 'quick' else 1500000
+    out += list(l1_cases(rng, tier))
+    n = 80000 if tier == 'quick' else 5000000
     k = 0
+    big = [b for b in GRID_ALL if b > 8]
     while k < n:
-        bits = rng.choice(GRID_ALL)
+        # widths <= 8 are enumerated exhaustively above; keep a thin sample of them for the other ops
+        bits = rng.choice(big) if rng.random() < 0.93 else rng.choice(GRID_ALL)
         if bits in (1024, 4096) and rng.random() < 0.5:
-            bits = rng.choice(GRID_ALL)          # thin out the most expensive widths
+            bits = rng.choice(big)               # thin out the most expensive widths
         r = rng.random()
         if r < 0.3:
             for a, e in gen_pow(rng, bits):
